@@ -165,7 +165,11 @@ def streams(tier, rng, P, only=None, cases=None):
                 elif form == "for": body[0].insert(0, "FOR(INT I=0;I<%d;I++){" % reps); body[-1].append("}")
                 elif form == "while": body[0].insert(0, "INT WW=0; WHILE(WW<%d){ WW=WW+1;" % reps); body[-1].append("}")
                 elif form == "if": body[0].insert(0, rng.choice(["IF(1){", "IF(2>1){", "IF(1) {"])); body[-1].append("}")
-                elif form == "else": body[0].insert(0, rng.choice(["IF(0){ c } ELSE {", "IF(0){ c }ELSE{"])); body[-1].append("}")
+                elif form == "else":
+                    if rng.random() < 0.5: body[0].insert(0, rng.choice(["IF(0){ c } ELSE {", "IF(0){ c }ELSE{"])); body[-1].append("}")
+                    else:
+                        # ELSE on a line of its own after the `}` of the THEN block
+                        body = [["IF(0){", "c"], ["}"]] + [[] for _ in range(rng.choice([0, 0, 1]))] + [["ELSE {"] + body[0]] + body[1:] + [["}"]]
                 elif form == "sub": body[0].insert(0, rng.choice(["Sub{", "S{", "Sub {"])); body[-1].append("}")
                 elif form == "div": body[0].insert(0, "{"); body[-1].append("}2")
                 else: body = [["FA();"] * reps + ["PRINT(99);"], ["FUNCTION FA(){"]] + body[1:] + [["}"]]
